@@ -132,6 +132,26 @@ def rule_delete(ctx):
     ctx.ob("FileSet._delete_single_file.effects", okr, "%s" % [norm(c) for c in rm], "exactly os.remove(<its file argument>), unconditionally", node=r.node, func=r)
 
 
+def _block_of(st):
+    par = parent(st)
+    for fld in ("body", "orelse", "finalbody"):
+        blk = getattr(par, fld, None)
+        if isinstance(blk, list) and any(x is st for x in blk):
+            return blk
+    return None
+
+
+def _flag_arms(flow, flag):
+    """(if statement, statements under the flag, statements without it) for the `if` that tests `flag` - any spelling"""
+    from ..flow import arms
+    for st in flow.stmts:
+        if isinstance(st, ast.If):
+            ab = arms(st, flag, _block_of(st))
+            if ab is not None:
+                return st, ab[0], ab[1]
+    return None
+
+
 def rule_move(ctx):
     ctx.rule("C11.move", "T6+T2", "move worker: new name from the destination template with the file's own times and attributes; source kept with "
              "copy, removed only after the write otherwise; target directory created before the transfer")
@@ -176,7 +196,7 @@ def rule_move(ctx):
         e = [norm(c) for s in e_arm for c in calls_in(s)]
         fact = "makedirs: %s; if copy: %s else: %s" % (norm(mk[0]), t, e)
         fsys = norm(mk[0].func.value)
-        okp = norm(mk[0].args[0]).replace(" ", "") == "posixpath.dirname(%s)" % new and mk[0].lineno < tr[0].lineno \
+        okp = norm(mk[0].args[0]).replace(" ", "") == "posixpath.dirname(%s)" % new and flow._order(enclosing_stmt(mk[0])) < flow._order(tr[0]) \
             and t == ["%s.copy(%s.path, %s)" % (fsys, fi, new)] and e == ["%s.move(%s.path, %s)" % (fsys, fi, new)]
         # the file system object must be reachable: a parameter's attribute (not an undefined `self`)
         okp = okp and fsys.split(".")[0] in f.all_params
@@ -206,12 +226,17 @@ def rule_write(ctx):
         ok = all(cfg.dominated_by(n, dn) for c in hw for n in cfg.nodes(enclosing_stmt(c))) and norm(md[0].args[0]) == "%s.path" % w.params[2]
     ctx.ob("FileSet.write.dirs", ok, "make_dirs calls: %s; handler writes: %d" % ([norm(c) for c in md], len(hw)), "make_dirs(file.path) dominates every handler.write",
            node=md[0] if md else w.node, func=w)
-    ci = [st for st in flow.stmts if isinstance(st, ast.If) and norm(st.test) == "self.compress"]
+    fa_ = _flag_arms(flow, "self.compress")
+    if fa_ is None or len(hw) != 2:
+        raise AnalysisError("write: the decision on self.compress / the two handler writes were not found")
+    ci = [fa_[0]]
     okc = False
     fact = None
     if ci:
         st = ci[0]
-        withs = [s for s in st.body if isinstance(s, ast.With)]
+        withs = [s for s in fa_[1] if isinstance(s, ast.With)]
+        if not withs:
+            raise AnalysisError("write: no with-statement under self.compress")
         if withs:
             wi = withs[0]
             item = wi.items[0]
@@ -223,7 +248,7 @@ def rule_write(ctx):
             setp = [s for s in wi.body if isinstance(s, ast.Assign) and norm(s.targets[0]).endswith(".path") and norm(s.value) == var]
             tgt = norm(setp[0].targets[0]).rsplit(".", 1)[0] if setp else None
             okc = bool(cc) and norm(cc[0].args[0]) == "%s.path" % w.params[2] and len(inner) == 1 and len(outer) == 1 and tgt is not None \
-                and norm(inner[0].args[1]) == tgt and norm(inner[0].args[0]) == w.params[1] and any(outer[0] is n for s in st.orelse for n in ast.walk(s)) \
+                and norm(inner[0].args[1]) == tgt and norm(inner[0].args[0]) == w.params[1] and any(outer[0] is n for s in fa_[2] for n in ast.walk(s)) \
                 and norm(outer[0].args[1]) == w.params[2]
             fact = "if self.compress: with %s as %s: %s.path = %s; %s else: %s" % (norm(item.context_expr)[:50], var, tgt, var, norm(inner[0])[:50] if inner else None, norm(outer[0])[:50] if outer else None)
     ctx.ob("FileSet.write.compress", okc, fact, "the compress(...) wrapper is entered exactly when self.compress is truthy and the handler writes to the path it yields; "
@@ -235,12 +260,17 @@ def rule_write(ctx):
     rflow = Flow(r)
     rcfg = rflow.cfg
     hr = [c for c in calls_in(r.node, "read") if norm(c.func) == "self.handler.read"]
-    di = [st for st in rflow.stmts if isinstance(st, ast.If) and norm(st.test) == "self.decompress"]
+    fd_ = _flag_arms(rflow, "self.decompress")
+    if fd_ is None or len(hr) != 2:
+        raise AnalysisError("read: the decision on self.decompress / the two handler reads were not found")
+    di = [fd_[0]]
     okd = False
     fact = None
     if di and len(hr) == 2:
         st = di[0]
-        withs = [s for s in st.body if isinstance(s, ast.With)]
+        withs = [s for s in fd_[1] if isinstance(s, ast.With)]
+        if not withs:
+            raise AnalysisError("read: no with-statement under self.decompress")
         if withs:
             wi = withs[0]
             item = wi.items[0]
@@ -251,19 +281,25 @@ def rule_write(ctx):
             setp = [s for s in wi.body if isinstance(s, ast.Assign) and norm(s.targets[0]).endswith(".path") and norm(s.value) == var]
             tgt = norm(setp[0].targets[0]).rsplit(".", 1)[0] if setp else None
             okd = bool(cc) and norm(cc[0].args[0]) == "%s.path" % r.params[1] and len(inner) == 1 and len(outer) == 1 and tgt is not None \
-                and norm(inner[0].args[0]) == tgt and norm(outer[0].args[0]) == r.params[1]
+                and norm(inner[0].args[0]) == tgt and norm(outer[0].args[0]) == r.params[1] and any(outer[0] is n for s in fd_[2] for n in ast.walk(s))
             fact = "if self.decompress: with %s as %s: read(%s) else: read(%s)" % (norm(item.context_expr)[:50], var, norm(inner[0].args[0]) if inner else None, norm(outer[0].args[0]) if outer else None)
     ctx.ob("FileSet.read.decompress", okd, fact, "decompress(...) entered exactly when self.decompress is truthy; the handler reads the yielded path", node=di[0] if di else r.node, func=r)
     # post_reader on every normal path between the read and the return
-    pr = [st for st in rflow.stmts if isinstance(st, ast.If) and norm(st.test) == "self.post_reader is not None"]
-    okp = False
-    if pr:
-        app = [s for s in pr[0].body if isinstance(s, ast.Assign) and norm(s.value) == "self.post_reader(%s, %s)" % (r.params[1], norm(s.targets[0]))]
-        rets = [s for s in rflow.stmts if isinstance(s, ast.Return)]
-        pn = set(rcfg.nodes(pr[0]))
-        okp = bool(app) and bool(rets) and all(rcfg.dominated_by(n, pn) for rr in rets for n in rcfg.nodes(rr)) and all(norm(rr.value) == norm(app[0].targets[0]) for rr in rets)
-    ctx.ob("FileSet.read.post_reader", okp, "%s" % (norm(pr[0])[:90] if pr else None), "data = self.post_reader(file_info, data) whenever a post_reader is set, before every return of the data",
-           node=pr[0] if pr else r.node, func=r)
+    rets = [s_ for s_ in rflow.stmts if isinstance(s_, ast.Return)]
+    got = {}
+    for label, asm in (("set", {"self.post_reader is not None": True, "self.post_reader is None": False, "self.post_reader": True}),
+                       ("unset", {"self.post_reader is not None": False, "self.post_reader is None": True, "self.post_reader": False})):
+        live = [r_ for r_ in rets if rflow.live_under(r_, asm)]
+        got[label] = sorted(set(str(norm(rflow.resolve_under(r_.value, asm, at=r_))) if r_.value is not None else "None" for r_ in live))
+    # the name holding what the handler read: every assignment from a handler read binds it
+    dn_ = set(norm(enclosing_stmt(c_).targets[0]) for c_ in hr if isinstance(enclosing_stmt(c_), ast.Assign) and len(enclosing_stmt(c_).targets) == 1)
+    if len(dn_) != 1:
+        raise AnalysisError("read: the handler's result is not bound to one name (%s)" % sorted(dn_))
+    D = str(list(dn_)[0])
+    okp = got["set"] == ["self.post_reader(%s, %s)" % (r.params[1], D)] and got["unset"] == [D]
+    ctx.ob("FileSet.read.post_reader", okp, "returned with a post_reader: %s; without: %s" % (got["set"], got["unset"]),
+           "self.post_reader(file_info, data) whenever a post_reader is set, the handler's data otherwise - on every return",
+           node=rets[0] if rets else r.node, func=r)
     ra = [st for st in rflow.stmts if isinstance(st, ast.Assign) and norm(st.targets[0]) == "read_args"]
     ctx.ob("FileSet.read.args", bool(ra) and norm(ra[0].value).replace(" ", "") == "{**self.read_args,**read_args}" and all("**read_args" in norm(c) for c in hr),
            "%s" % (norm(ra[0]) if ra else None), "read_args = {**self.read_args, **read_args}; passed to the handler", node=ra[0] if ra else r.node, func=r)
